@@ -149,6 +149,9 @@ pub fn run_check_impl(args: &CheckArgs, cli: &Cli) -> crate::Result<i32> {
     // 2. Apply CLI argument overrides
     apply_cli_overrides(&mut config, args);
 
+    // 2.0 The overridden values must pass the same gate as the file's
+    crate::config::validate_config_semantics(&config)?;
+
     // 2.1 Check for expired rules and emit warnings
     let expired_rules = collect_expired_rules(&config);
     for expired in &expired_rules {
